@@ -219,6 +219,28 @@ func c05(r *core.Report) {
 		}
 		r.Check(n > 0 && bad == "", "C05-NO-DISTURB", core.FnName(fn), p.Pos(fn.Pos()), "when the key is refused only setNext runs: previous/current sessions, remote key and readiness are untouched", "the refusing path disturbs the established session ("+bad+")")
 	}
+	// REJECT-CLEARS: a refused prospective session must not stay in the prospective slot:
+	// it is keyed and ready, and Channel.Deliver would decrypt and hand out its data.
+	r.Rule("C05-REJECT-CLEARS", "the refusing path of onReadySession empties the prospective slot on every path", 1)
+	{
+		fn := c.onReady
+		cut, n, _ := c.keyJudgementCut(fn)
+		isClear := func(in ssa.Instruction) bool {
+			cc, ok := in.(ssa.CallInstruction)
+			if !ok || !core.IsCallToFn(cc.Common(), c.setNext) {
+				return false
+			}
+			return isZeroStruct(cc.Common().Args[1])
+		}
+		reached := core.Reach(fn, nil, cut, isClear)
+		ok := n > 0
+		for _, ret := range core.Returns(fn) {
+			if reached[ret] {
+				ok = false
+			}
+		}
+		r.Check(ok, "C05-REJECT-CLEARS", core.FnName(fn), p.Pos(fn.Pos()), "every path on which the key was refused passes setNext(sessionEntry{})", "a refused session can stay in the prospective slot: it is fully keyed and ready, so every later data packet from the refused peer is decrypted and delivered as application data")
+	}
 	// setNext writes slot 2 only, setCurrent slots 0 and 1 only
 	r.Rule("C05-SLOTS", "setNext writes only the prospective slot; setCurrent only previous and current", 2)
 	for _, s := range []struct {
@@ -390,3 +412,23 @@ func ruleAppAfterRecheck(r *core.Report, c *chanSlots, ruleID string) {
 }
 
 var _ = token.EQL
+
+// isZeroStruct: v is the zero value of a struct type (a load of a local that
+// is never stored to, or a nil-valued constant).
+func isZeroStruct(v ssa.Value) bool {
+	if c, ok := v.(*ssa.Const); ok {
+		return c.Value == nil
+	}
+	cell := core.CellOf(v)
+	if cell == nil {
+		return false
+	}
+	for _, ref := range *cell.Referrers() {
+		switch ref.(type) {
+		case *ssa.UnOp, *ssa.DebugRef:
+		default:
+			return false
+		}
+	}
+	return true
+}
